@@ -1078,9 +1078,6 @@ func (l *LineWrapper) wrapNextLine(config lineConfig) (done bool) {
 			return true
 		case truncated:
 			// The candidateRun does not fit.
-			if !l.scratch.hasBest() {
-				l.scratch.markCandidateBest()
-			}
 			if l.config.BreakPolicy == Never {
 				return true
 			}
